@@ -32,6 +32,43 @@ func checkC06(s ttxStream) string {
 		return fmt.Sprintf("%s (options %+v, page %d/%d%d, serial %v)", m, o, s.Mag, s.Tens, s.Units, s.Serial)
 	}
 	first := canon(sub)
+	// a page under the reserved national option (what its 13 national positions show is not laid down) still shows
+	// what its own packets say: not what an earlier instance, under another option, left behind. The same stream with
+	// every earlier instance moved to the English option must give the same text for it.
+	if s.Designation == 0 {
+		for k, e := range exp {
+			anyText := false
+			for _, l := range e.Lines {
+				anyText = anyText || l.AnyText
+			}
+			if !anyText || k == 0 || k >= len(sub.Items) {
+				continue
+			}
+			s2 := s
+			s2.Instances = append([]ttxInstance(nil), s.Instances...)
+			changed := false
+			for i := range s2.Instances {
+				in := &s2.Instances[i]
+				if in.C12&in.C13&in.C14 == 1 {
+					continue
+				}
+				changed = changed || in.C12+in.C13+in.C14 > 0
+				in.C12, in.C13, in.C14 = 0, 0, 0
+			}
+			if !changed {
+				break
+			}
+			b2, _ := s2.render()
+			sub2, err := astisub.ReadFromTeletext(bytes.NewReader(b2), o)
+			if err != nil || len(sub2.Items) != len(sub.Items) {
+				break
+			}
+			if a, b := sub.Items[k].String(), sub2.Items[k].String(); a != b {
+				return fmt.Sprintf("cue %d (reserved national option) reads %q after instances under other national options, %q after the same instances under the English option: what an earlier page selected leaks into it", k, a, b)
+			}
+			break
+		}
+	}
 	// the same stream through the file-level entry point (a file, not a byte slice)
 	if s.ViaFile {
 		dir, err := os.MkdirTemp("", "c06")
